@@ -614,3 +614,76 @@ Proof.
            ltac:(apply Forall_map; exact HPre)).
 Qed.
 End MapForms.
+
+(* ============================================ the hypothesis on fn is satisfiable *)
+(* a procedure that allocates: (lambda (a b) (cons a b)) as a direct call of the builtin *)
+Definition fn_cons (args : list vcell) : M vcell :=
+  match args with [a; b] => callb cons_ [a; b] | _ => fail E_OTHER end.
+Definition two_args (row : list aval) : Prop := length row = 2%nat.
+
+Lemma fn_cons_ok : forall s args,
+  values_are_refs s -> sp s < scap s -> Forall (val_ok s) args -> two_args (map (absv s) args) ->
+  exists r s', fn_cons args s = ROk r s' /\ pres s s' /\ values_are_refs s' /\ sp s' < scap s' /\ val_ok s' r.
+Proof.
+  intros s args W Hsp Hargs H2. unfold two_args in H2. rewrite map_length in H2.
+  destruct args as [|a [|b [|c r]]]; try discriminate H2.
+  inversion Hargs as [|? ? Ha Hr]; subst. inversion Hr as [|? ? Hb _]; subst.
+  destruct (callA_cons s a b (conj W Hsp) Ha Hb) as (p & s' & E & _ & _ & Q & (W' & Hsp') & T).
+  exists (VPtr p), s'. split; [exact E|]. split; [exact (quiet_pres _ _ Q)|]. split; [exact W'|].
+  split; [exact Hsp' | exact T].
+Qed.
+
+(* the identity on one argument *)
+Definition fn_id (args : list vcell) : M vcell := match args with [a] => ret a | _ => fail E_OTHER end.
+Definition one_arg (row : list aval) : Prop := length row = 1%nat.
+Lemma fn_id_ok : forall s args,
+  values_are_refs s -> sp s < scap s -> Forall (val_ok s) args -> one_arg (map (absv s) args) ->
+  exists r s', fn_id args s = ROk r s' /\ pres s s' /\ values_are_refs s' /\ sp s' < scap s' /\ val_ok s' r.
+Proof.
+  intros s args W Hsp Hargs H1. unfold one_arg in H1. rewrite map_length in H1.
+  destruct args as [|a [|b r]]; try discriminate H1.
+  inversion Hargs as [|? ? Ha _]; subst.
+  exists a, s. split; [reflexivity|]. split; [apply pres_refl|]. repeat (split; [assumption|]). assumption.
+Qed.
+
+(* ================================================ the hypotheses are satisfiable *)
+Lemma inv_empty : inv (vm_empty 64).
+Proof. split; [apply wf_empty; reflexivity | reflexivity]. Qed.
+
+(* a machine holding ((1 . 2) . 3): the hypotheses of caar / cdar hold *)
+Lemma cxxr_hyps_inhabited :
+  exists s o p x d q y e,
+    inv s /\ val_ok s o /\ absv s o = ALoc (LPair p) /\ a_pair (abs s) p = Some (x, d) /\
+    x = ALoc (LPair q) /\ a_pair (abs s) q = Some (y, e) /\ y = AImm (VNum (Fixnum 1)).
+Proof.
+  destruct (callA_cons (vm_empty 64) (VNum (Fixnum 1)) (VNum (Fixnum 2)) inv_empty Logic.I Logic.I)
+    as (p1 & s1 & _ & _ & Hp1 & _ & I1 & T1).
+  destruct (callA_cons s1 (VPtr p1) (VNum (Fixnum 3)) I1 T1 Logic.I)
+    as (p2 & s2 & _ & _ & Hp2 & Q2 & I2 & T2).
+  exists s2, (VPtr p2), p2, (ALoc (LPair p1)), (AImm (VNum (Fixnum 3))), p1,
+         (AImm (VNum (Fixnum 1))), (AImm (VNum (Fixnum 2))).
+  split; [exact I2|]. split; [exact T2|]. split; [exact (a_pair_absv s2 p2 _ Hp2)|].
+  split; [rewrite Hp2, (a_pair_absv s1 p1 _ Hp1); reflexivity|]. split; [reflexivity|].
+  split; [|reflexivity].
+  rewrite (pres_a_pair s1 s2 p1 (proj1 I1) (quiet_pres _ _ Q2) (proj1 T1)). exact Hp1.
+Qed.
+
+(* two proper lists (1 2 3) and (4 5) on one machine: the hypotheses of the two-list forms *)
+Lemma map_hyps_inhabited :
+  exists s l1 l2 xs ys,
+    inv s /\ val_ok s l1 /\ val_ok s l2 /\
+    achain (abs s) (absv s l1) xs anil /\ achain (abs s) (absv s l2) ys anil /\
+    length xs = 3%nat /\ length ys = 2%nat /\ Forall (fun xy => two_args (row2 xy)) (combine xs ys).
+Proof.
+  set (n := fun z => VNum (Fixnum z)).
+  destruct (vararg_lists_spec (vm_empty 64) [n 1%Z; n 2%Z; n 3%Z] inv_empty
+              ltac:(repeat constructor)) as (l1 & s1 & _ & Q1 & I1 & Hv1 & Hc1).
+  destruct (vararg_lists_spec s1 [n 4%Z; n 5%Z] I1 ltac:(repeat constructor))
+    as (l2 & s2 & _ & Q2 & I2 & Hv2 & Hc2).
+  pose proof (quiet_pres _ _ Q2) as P2.
+  exists s2, l1, l2, (map (absv (vm_empty 64)) [n 1%Z; n 2%Z; n 3%Z]), (map (absv s1) [n 4%Z; n 5%Z]).
+  split; [exact I2|]. split; [exact (pres_val_ok _ _ _ P2 Hv1)|]. split; [exact Hv2|].
+  split; [rewrite (pres_absv _ _ _ P2 Hv1); exact (achain_pres s1 s2 _ _ _ (proj1 I1) P2 Hc1)|].
+  split; [exact Hc2|]. split; [reflexivity|]. split; [reflexivity|].
+  repeat constructor.
+Qed.
